@@ -479,6 +479,10 @@ static int ec_edit(char *loc, char *cmd, char *arg, char *txt)
 	if (path[0] || !bufs[0].path)
 		bufs_switch(bufs_open(path));
 	fd = open(ex_path(), O_RDONLY);
+	if (fd < 0 && !path[0] && lbuf_modified(xb)) {	/* nothing to reload */
+		ex_show("read failed");
+		return 1;
+	}
 	if (fd >= 0) {
 		int rd = lbuf_rd(xb, fd, 0, lbuf_len(xb));
 		close(fd);
